@@ -378,5 +378,9 @@ func runC16(r *Run) {
 		for i := 0; i < r.Pick(12, 120); i++ {
 			bulkLoad(r, i, "C16")
 		}
+		// the size views after two Sets of one key whose cost deltas reached the policy in reverse order (c06.go, hook H1)
+		for i := 0; i < r.Pick(6, 60); i++ {
+			reorderedCostDeltas(r, i, "C16")
+		}
 	}
 }
